@@ -627,8 +627,15 @@ def po_estimate_out(S):
         S.cover("below")
     else:
         S.cover("above")
-    la, q_a, b_a = A.market.estimate_liquidity(v, kA)
-    lb, b_b, q_b = B.market.estimate_liquidity(v, kB)
+    try:
+        la, q_a, b_a = A.market.estimate_liquidity(v, kA)
+        lb, b_b, q_b = B.market.estimate_liquidity(v, kB)
+    except REJECT:
+        # natively a liquidity of more than 35 digits overflows the Decimal floor division inside mul_div (DivisionImpossible):
+        # outside the native sampling domain; symbolically no rejection is reachable, and if one were it is reported
+        S.native_assume(False, "astronomic liquidity (> 35 digits)")
+        S.check("estimate_liquidity-does-not-reject", False)
+        return
     S.native_assume(la > 10 ** 14)
     S.check("liquidity-equal", S.close(la, lb, "1e-3"))
     S.check("quote-amount-equal", S.close(q_a, q_b, "1e-3", Decimal("1e-12")))
